@@ -361,6 +361,43 @@ def run_project(job: T.Tuple[int, str, str, T.List[int], int]) -> dict:
             res['histories'] += 1
             compare(f'history:{name}', {'history': [' '.join(a.replace(base, '') for a in c) for c in cmds]})
         runner.write_tree(src, {'meson.options': all_files['meson.options']})
+    # ---- a configuration that was killed part-way and then recovered is one more history ----------------------------
+    from vf.monitors import crash
+    nkills = 1 if tier == 'quick' else 4
+    fresh()
+    rc0 = runner.meson(['setup', b, src] + OPTS, cwd=src, monitors=[crash.make_injector(b, 0)])
+    total = max([x.get('total_ops', 0) for x in rc0.records] + [0])
+    rcount = runner.meson(['setup', '--reconfigure', b, src, '-Dlvl=z'], cwd=src, monitors=[crash.make_injector(b, 0)])
+    total_re = max([x.get('total_ops', 0) for x in rcount.records] + [0])
+    for j in range(nkills if total and total_re else 0):
+        # (a) the first setup is killed, the user runs it again (and reconfigures if meson says "already configured")
+        k = rng.randint(1, total)
+        fresh()
+        kr = runner.meson(['setup', b, src] + OPTS, cwd=src, monitors=[crash.make_injector(b, k)])
+        if kr.signal == 9:
+            rr = runner.meson(['setup', b, src] + OPTS, cwd=src)
+            if rr.rc != 0 or not os.path.isfile(os.path.join(b, 'build.ninja')) or 'already configured' in rr.out:
+                rr = runner.meson(['setup', '--reconfigure', b, src] + OPTS, cwd=src)
+            if rr.rc == 0:
+                res['histories'] += 1
+                res['killed_histories'] = res.get('killed_histories', 0) + 1
+                compare('history:killed-setup-then-recovered', {'history': [f'setup {" ".join(OPTS0)} killed at mutation {k}/{total}', 'setup again / --reconfigure']})
+            else:
+                problem('history:killed-setup-then-recovered/recovery-failed', k=k, tail=(rr.out + rr.err)[-400:])
+        # (b) a reconfigure towards OTHER options is killed, the user reconfigures with the reference options
+        k = rng.randint(1, total_re)
+        fresh()
+        if runner.meson(['setup', b, src] + OPTS, cwd=src).rc != 0:
+            continue
+        kr = runner.meson(['setup', '--reconfigure', b, src, '-Dlvl=z', '-Dname=w'], cwd=src, monitors=[crash.make_injector(b, k)])
+        if kr.signal == 9:
+            rr = runner.meson(['setup', '--reconfigure', b, src] + OPTS, cwd=src)
+            if rr.rc == 0:
+                res['histories'] += 1
+                res['killed_histories'] = res.get('killed_histories', 0) + 1
+                compare('history:killed-reconfigure-then-recovered', {'history': ['setup', f'setup --reconfigure -Dlvl=z -Dname=w killed at mutation {k}/{total_re}', 'setup --reconfigure <reference options>']})
+            else:
+                problem('history:killed-reconfigure-then-recovered/recovery-failed', k=k, tail=(rr.out + rr.err)[-400:])
     shutil.rmtree(base, ignore_errors=True)
     return res
 
@@ -412,6 +449,7 @@ def main() -> int:
         chk.count('monitor:replace_if_different_outputs', res['rid_files'])
         chk.count('monitor:mtime_inode_checked', res['mtime_checked'])
         chk.count('histories_compared', res['histories'])
+        chk.count('histories_with_a_killed_command_compared', res.get('killed_histories', 0))
         chk.count('watchdog_timeouts', res.get('timeouts', 0))
         for how in res['perturbations']:
             chk.case((res['project'], how))
